@@ -97,7 +97,7 @@ def same_up_to_phase(A, B, tol=1e-9):
 
 
 # ----------------------------------------------------------------------------------------------------------------- circuits
-_ANGLES = [0.0, PI / 2, -PI / 2, PI, 2 * PI, 0.3, -1.7, 4.9, 1e-9, 1, 2, -3, 7.25]
+_ANGLES = [0.0, PI / 2, -PI / 2, PI, 2 * PI, 0.3, -1.7, 4.9, 1e-9, 1, 2, -1, -2, -3, 7.25, 2.6 * PI, -3.5 * PI]
 
 
 def _custom_defs():
@@ -113,9 +113,9 @@ def _custom_defs():
     ]
 
 
-def rand_param(r, symbolic, pool=None):
+def rand_param(r, symbolic, pool=None, force=False):
     import sympy
-    if symbolic and r.random() < 0.8:
+    if symbolic and (force or r.random() < 0.8):
         pool = pool or sympy.symbols("alpha beta theta_1 theta_2 theta_10 x")
         s = r.choice(pool)
         kind = r.randrange(7)
@@ -132,73 +132,174 @@ def rand_param(r, symbolic, pool=None):
         if kind == 5:
             return s - 0.5
         return s * r.choice(pool) + 1
+    if _NUMPOOL[0] is not None:
+        return r.choice(_NUMPOOL[0])
     return r.choice(_ANGLES) if r.random() < 0.6 else r.uniform(-7, 7)
 
 
-def rand_gate(r, max_qubits, symbolic=False, wrappers=True, custom=True, exclude=()):
-    """-> a gate acting on <= max_qubits qubits (max_qubits >= 1)"""
+_NUMPOOL = [None]       # when set: every numeric parameter of the case is drawn from this small pool of values that collide under ==, hash() or int()
+
+
+_ONE = ["X", "Y", "Z", "H", "S", "T", "SX", "I"]
+_ONE_P = ["RX", "RY", "RZ", "PHASE", "RH", "GPi", "GPi2", "Delay"]
+_TWO = ["CNOT", "CZ", "SWAP", "ISWAP"]
+_TWO_P = ["CPHASE", "XX", "YY", "ZZ", "XY"]
+
+
+def _peel(g):
+    """-> (innermost gate, modifiers from the innermost outwards)"""
+    from orquestra.quantum.circuits import ControlledGate, Dagger
+    chain = []
+    while isinstance(g, (ControlledGate, Dagger)):
+        chain.append(("controlled", g.num_control_qubits) if isinstance(g, ControlledGate) else ("dagger",))
+        g = g.wrapped_gate
+    return g, chain[::-1]
+
+
+def _wrap(g, chain):
+    for w in chain:
+        g = g.dagger if w[0] == "dagger" else g.controlled(w[1])
+    return g
+
+
+def rand_base_gate(r, max_qubits, symbolic=False, custom=True, exclude=(), param=None, all_symbolic=False):
     import orquestra.quantum.circuits as C
-    one = ["X", "Y", "Z", "H", "S", "T", "SX", "I"]
-    one_p = ["RX", "RY", "RZ", "PHASE", "RH", "GPi", "GPi2", "Delay"]
-    two = ["CNOT", "CZ", "SWAP", "ISWAP"]
-    two_p = ["CPHASE", "XX", "YY", "ZZ", "XY"]
-    kinds = ["one", "one_p", "u3"] + (["two", "two_p", "ms"] if max_qubits >= 2 else []) + (["custom"] if custom else [])
+    P = (lambda: param) if param is not None else (lambda: rand_param(r, symbolic or all_symbolic, force=all_symbolic))
+    kinds = ([] if all_symbolic else ["one"]) + ["one_p", "u3"] + (([] if all_symbolic else ["two"]) + ["two_p", "ms"] if max_qubits >= 2 else []) + (["custom"] if custom else [])
     for _ in range(50):
         kind = r.choice(kinds)
         if kind == "one":
-            name = r.choice(one)
+            name = r.choice(_ONE)
             g = getattr(C, name)
         elif kind == "one_p":
-            name = r.choice(one_p)
-            g = getattr(C, name)(rand_param(r, symbolic))
+            name = r.choice(_ONE_P)
+            g = getattr(C, name)(P())
         elif kind == "u3":
             name = "U3"
-            g = C.U3(rand_param(r, symbolic), rand_param(r, symbolic), rand_param(r, symbolic))
+            g = C.U3(P(), P(), P())
         elif kind == "two":
-            name = r.choice(two)
+            name = r.choice(_TWO)
             g = getattr(C, name)
         elif kind == "two_p":
-            name = r.choice(two_p)
-            g = getattr(C, name)(rand_param(r, symbolic))
+            name = r.choice(_TWO_P)
+            g = getattr(C, name)(P())
         elif kind == "ms":
             name = "MS"
-            g = C.MS(rand_param(r, symbolic), rand_param(r, symbolic))
+            g = C.MS(P(), P())
         else:
             d = r.choice(_custom_defs())
             name = d.gate_name
-            if d.matrix.shape[0] > 2 ** max_qubits:
+            if d.matrix.shape[0] > 2 ** max_qubits or (all_symbolic and not d.params_ordering):
                 continue
-            g = d(*[rand_param(r, symbolic) for _ in d.params_ordering])
-        if name in exclude:
-            continue
-        if wrappers:
-            for _ in range(r.choice([0, 0, 0, 1, 1, 2, 3])):
-                w = r.choice(["dagger", "controlled", "controlled", "dagger"])
-                if w == "dagger":
-                    g = g.dagger
-                else:
-                    k = r.choice([1, 1, 2])
-                    if g.num_qubits + k <= max_qubits:
-                        g = g.controlled(k)
-        if g.num_qubits <= max_qubits:
+            g = d(*[P() for _ in d.params_ordering])
+        if name not in exclude:
             return g
-    return C.X
+    return C.RX(P()) if all_symbolic else C.X
 
 
-def rand_circuit(r, symbolic=False, wrappers=True, custom=True, max_width=5, max_ops=8, exclude=(), min_ops=0):
+def rand_chain(r, room):
+    """random modifiers that add at most `room` control qubits"""
+    chain = []
+    for _ in range(r.choice([0, 0, 0, 1, 1, 2, 3])):
+        if r.random() < 0.5:
+            chain.append(("dagger",))
+        else:
+            k = r.choice([1, 1, 2])
+            if k <= room:
+                chain.append(("controlled", k))
+                room -= k
+    return chain
+
+
+def rand_gate(r, max_qubits, symbolic=False, wrappers=True, custom=True, exclude=(), param=None, all_symbolic=False):
+    """-> a gate acting on <= max_qubits qubits (max_qubits >= 1)"""
+    g = rand_base_gate(r, max_qubits, symbolic, custom, exclude, param, all_symbolic)
+    if wrappers:
+        g = _wrap(g, rand_chain(r, max_qubits - g.num_qubits))
+    return g
+
+
+_COLLIDE = {-1: -2, -2: -1, 1: 1.0, 2: 2.0, 0.3: 0.3 + 1e-9, -1.7: -1.7 - 1e-9, 0.0: 1e-9, 1e-9: 0.0}
+
+
+def vary_gate(r, g, max_qubits, exclude=()):
+    """a NEAR-DUPLICATE of g: same base under other modifiers, another base of the same shape under the same modifiers and parameters, or
+    the same gate with parameters that collide under ==, hash() or a tolerance (-1 / -2, 1 / 1.0, a / a + 1e-9)"""
+    import orquestra.quantum.circuits as C
+    base, chain = _peel(g)
+    how = r.choice(["chain", "chain", "base", "params", "same"] + (["params"] * 5 if _NUMPOOL[0] is not None else []))
+    if how == "chain":
+        room = max_qubits - base.num_qubits
+        new = list(chain)
+        ctrl_pos = [i for i, w in enumerate(new) if w[0] == "controlled"]
+        if ctrl_pos and r.random() < 0.6:
+            i = r.choice(ctrl_pos)
+            k = new[i][1]
+            k2 = k + 1 if (k == 1 and sum(w[1] for w in new if w[0] == "controlled") + 1 <= room) else max(1, k - 1)
+            new[i] = ("controlled", k2)
+        elif r.random() < 0.5 and 1 + sum(w[1] for w in new if w[0] == "controlled") <= room:
+            new.append(("controlled", 1))
+        else:
+            new.insert(r.randrange(len(new) + 1), ("dagger",))
+        return _wrap(base, new)
+    if how == "base":
+        name = base.name
+        for pool in (_ONE, _ONE_P, _TWO, _TWO_P):
+            if name in pool:
+                other = r.choice([x for x in pool if x != name and x not in exclude] or [name])
+                nb = getattr(C, other)
+                return _wrap(nb(*base.params) if base.params else nb, chain)
+        return g
+    if how == "params" and base.params:
+        newp = tuple(_COLLIDE.get(p, p) if not hasattr(p, "free_symbols") else p for p in base.params)
+        if newp == tuple(base.params) and all(not hasattr(p, "free_symbols") for p in base.params):
+            newp = tuple(p + 1e-9 for p in base.params)
+        return _wrap(base.replace_params(newp), chain)
+    return g
+
+
+def rand_circuit(r, symbolic=False, wrappers=True, custom=True, max_width=5, max_ops=8, exclude=(), min_ops=0, all_symbolic=False):
+    """features drawn independently: register width, idle qubits (anywhere), explicit / implied width, qubit order, gate kinds, modifier
+    chains, custom gates, parameter kinds; one parameter expression shared by every gate; near-duplicate operations (see vary_gate),
+    adjacent or apart, on the same or on permuted qubits"""
     from orquestra.quantum.circuits import Circuit
     n = r.randint(1, max_width)
     L = r.randint(min_ops, max_ops)
     ops = []
-    # a random subset of the register may stay idle (also the top and the bottom qubit)
     live = [q for q in range(n) if r.random() < 0.8] or [r.randrange(n)]
-    for _ in range(L):
-        g = rand_gate(r, len(live), symbolic, wrappers, custom, exclude)
-        qs = r.sample(live, g.num_qubits)
-        ops.append(g(*qs))
+    shared = rand_param(r, symbolic or all_symbolic, force=all_symbolic) if r.random() < 0.3 else None
+    if all_symbolic and shared is not None and not getattr(shared, "free_symbols", None):
+        shared = None
+    dup = r.random() < 0.5
+    _NUMPOOL[0] = [-1, -2, -1.0, -2.0, 1, 1.0, 2, 2.0] if (r.random() < 0.2 and not all_symbolic) else None
+    dup = dup or _NUMPOOL[0] is not None
+    try:
+        ops = _rand_ops(r, L, live, dup, shared, symbolic, wrappers, custom, exclude, all_symbolic)
+    finally:
+        _NUMPOOL[0] = None
     explicit = r.random() < 0.5
-    c = Circuit(ops, n_qubits=n) if explicit else Circuit(ops)
-    return c
+    return Circuit(ops, n_qubits=n) if explicit else Circuit(ops)
+
+
+def _rand_ops(r, L, live, dup, shared, symbolic, wrappers, custom, exclude, all_symbolic):
+    ops = []
+    for _ in range(L):
+        if dup and ops and r.random() < 0.45:
+            src = r.choice(ops) if r.random() < 0.5 else ops[-1]
+            g = vary_gate(r, src.gate, len(live), exclude)
+            if g.num_qubits > len(live):
+                g = src.gate
+            if g.num_qubits == src.gate.num_qubits and r.random() < 0.6:
+                qs = list(src.qubit_indices)
+                if r.random() < 0.3:
+                    r.shuffle(qs)
+            else:
+                qs = r.sample(live, g.num_qubits)
+        else:
+            g = rand_gate(r, len(live), symbolic, wrappers, custom, exclude, param=shared, all_symbolic=all_symbolic)
+            qs = r.sample(live, g.num_qubits)
+        ops.append(g(*qs))
+    return ops
 
 
 def ref_unitary(circuit, n=None, subs=None):
@@ -259,18 +360,70 @@ def _values_for(r, symbols):
     return {s: r.choice([0.0, 0.37, -1.3, 2.9, PI / 2, 1, -2]) if r.random() < 0.5 else r.uniform(-3, 3) for s in symbols}
 
 
+def check_C02(case):
+    """random parametric built-in gate whose parameters are EXPRESSIONS (symbol plus a constant of any size - whole and half turns, floats, exact
+    multiples of pi -, multiples, sums of symbols, numbers next to symbols): the matrix computed for the expression and evaluated at random real
+    points equals the gate's matrix function evaluated at the value of the expression, is unitary, and for one-parameter gates satisfies the
+    group law G(t) G(c) = G(t + c) when t + c is passed as one expression"""
+    import sympy
+    import orquestra.quantum.circuits as C
+    r = rng("C02", case)
+    name = r.choice(_ONE_P[:-1] + _TWO_P + ["U3", "MS"])
+    k = {"U3": 3, "MS": 2}.get(name, 1)
+    t, u = sympy.symbols("t u")
+    consts = [2 * sympy.pi, -2 * sympy.pi, 4 * sympy.pi, 3 * sympy.pi, sympy.pi, sympy.pi / 2, 2 * PI, 7, 7.0, -8.5, 12.0, 17, 1000, -3 * PI, 0.3, 6 * sympy.pi, 100.0]
+
+    def expr():
+        kind = r.randrange(7)
+        c = r.choice(consts)
+        if kind == 0:
+            return t + c
+        if kind == 1:
+            return t - c
+        if kind == 2:
+            return r.choice([2, -1, 3, 0.5]) * t + c
+        if kind == 3:
+            return t + u + c
+        if kind == 4:
+            return r.choice([2, -1, sympy.Rational(1, 2)]) * t
+        if kind == 5:
+            return c            # a plain number next to symbolic parameters
+        return t
+    es = [expr() for _ in range(k)]
+    g = getattr(C, name)(*es)
+    vals = {t: r.choice([0.0, 0.37, -1.3, 2.9, 7.0, -8.5]) if r.random() < 0.6 else r.uniform(-10, 10), u: r.uniform(-4, 4)}
+    numeric = [float(sympy.N(sympy.sympify(e).subs(vals))) for e in es]
+    want = npmat(getattr(C, name)(*numeric).matrix)
+    got = npmat(sympy.Matrix(g.matrix).subs(vals))
+    d = 2 ** g.num_qubits
+    if got.shape != (d, d) or not np.allclose(got, want, atol=1e-9):
+        return False, f"{name}{tuple(es)} evaluated at {vals} differs from {name}{tuple(numeric)}"
+    if not np.allclose(got.conj().T @ got, np.eye(d), atol=1e-9):
+        return False, f"{name}{tuple(es)} at {vals} is not unitary"
+    fresh = sympy.symbols("p_1:%d" % (k + 1))
+    gen = npmat(sympy.Matrix(getattr(C, name)(*fresh).matrix).subs(dict(zip(fresh, numeric))))
+    if not np.allclose(gen, want, atol=1e-9):
+        return False, f"{name} with symbolic parameters evaluated at {numeric} differs from the numerically built gate"
+    if k == 1 and name not in ("RH", "GPi", "GPi2"):
+        c = r.choice(consts)
+        tv = vals[t]
+        lhs = npmat(sympy.Matrix(getattr(C, name)(t).matrix).subs({t: tv})) @ npmat(getattr(C, name)(float(sympy.N(c))).matrix)
+        rhs = npmat(sympy.Matrix(getattr(C, name)(t + c).matrix).subs({t: tv}))
+        if not np.allclose(lhs, rhs, atol=1e-9):
+            return False, f"{name}(t) x {name}({c}) differs from {name}(t + {c}) at t = {tv}"
+    return True, "ok"
+
+
 def check_C06(case):
-    """random symbolic circuits (expressions in up to 6 symbols, wrappers, custom gates): bind-then-evaluate == evaluate-then-substitute,
-    partial binding in two steps == binding once, extra symbols ignored, free symbols == symbols the parameters depend on (first appearance)"""
+    """random symbolic circuits (parameter expressions in up to 6 symbols, one expression shared by all gates, modifier chains, custom gates,
+    near-duplicate operations; in every other case EVERY gate is symbolic so that the library's own circuit matrix can be taken): binding real,
+    complex or expression values then evaluating == evaluating symbolically (gate matrices, library circuit matrix) then substituting; binding in
+    two steps == binding once; symbols absent from the map and numeric parameters untouched; extra symbols ignored; free symbols == symbols the
+    parameters depend on (first appearance)"""
     import sympy
     r = rng("C06", case)
-    c = rand_circuit(r, symbolic=True, max_width=4, max_ops=6)
-    syms = []
-    for op in c.operations:
-        for p in op.params:
-            if isinstance(p, sympy.Expr):
-                for s in sorted(p.free_symbols, key=str):
-                    pass
+    allsym = r.random() < 0.5
+    c = rand_circuit(r, symbolic=True, max_width=3 if allsym else 4, max_ops=4 if allsym else 6, all_symbolic=allsym, min_ops=1 if allsym else 0)
     want = []
     for op in c.operations:
         for s in op.free_symbols:
@@ -286,7 +439,12 @@ def check_C06(case):
         return False, f"free symbols of {c} are {fs}, the parameters depend on {sorted(dep, key=str)}"
     if fs != want:
         return False, f"free symbols of {c} are {fs}, first-appearance order of the operations' symbols is {want}"
+    kind = r.choice(["real", "real", "complex", "mixed"])
     vals = _values_for(r, fs)
+    if kind != "real":
+        for s_ in fs:
+            if kind == "complex" or r.random() < 0.5:
+                vals[s_] = complex(round(r.uniform(-2, 2), 3), round(r.uniform(-2, 2), 3))
     extra = {sympy.Symbol("unused_zz"): 1.5} if r.random() < 0.5 else {}
     full = {**vals, **extra}
     bound = c.bind(full)
@@ -297,12 +455,18 @@ def check_C06(case):
         return False, f"binding changed the shape of {c}"
     ref = ref_unitary(c, subs=vals)
     for o1, o2 in zip(c.operations, bound.operations):
-        if tuple(o1.qubit_indices) != tuple(o2.qubit_indices) or o1.gate.name != o2.gate.name:
-            return False, f"binding changed operation {o1} into {o2}"
+        if tuple(o1.qubit_indices) != tuple(o2.qubit_indices) or _gate_shape(o1.gate) != _gate_shape(o2.gate):
+            return False, f"binding {vals} changed operation {o1} into {o2}"
         if not np.allclose(npmat(o2.gate.matrix), npmat(o1.gate.matrix.subs(vals)), atol=1e-9):
             return False, f"bound gate {o2} differs from the symbolic matrix of {o1} with {vals} substituted"
     if not np.allclose(ref_unitary(bound), ref, atol=1e-9):
-        return False, f"bound circuit differs from the symbolic circuit with values substituted"
+        return False, f"bound circuit differs from the symbolic circuit {c} with {vals} substituted"
+    if allsym and n <= 3 and fs:
+        Us = c.to_unitary()
+        if not np.allclose(npmat(sympy.Matrix(Us).subs(vals)), ref, atol=1e-8):
+            return False, f"to_unitary() of the symbolic circuit {c} with {vals} substituted differs from the product of its gate matrices at those values"
+        if not np.allclose(npmat(bound.to_unitary()), ref, atol=1e-8):
+            return False, f"to_unitary() of {c} bound with {vals} differs from the symbolic matrix with the values substituted"
     if fs:
         k = r.randrange(len(fs) + 1)
         first = {s: vals[s] for s in fs[:k]}
@@ -314,10 +478,22 @@ def check_C06(case):
         if not np.allclose(ref_unitary(two), ref, atol=1e-9):
             return False, f"binding {c} in two steps {list(first)} / {list(second)} differs from binding once"
         for o1, o2 in zip(c.operations, part.operations):
+            if _gate_shape(o1.gate) != _gate_shape(o2.gate):
+                return False, f"partial binding changed operation {o1} into {o2}"
             for p1, p2 in zip(o1.params, o2.params):
                 if not (isinstance(p1, sympy.Expr) and p1.free_symbols & set(first)):
                     if p1 != p2:
                         return False, f"parameter {p1} of {o1} does not depend on {list(first)} but became {p2}"
+        # binding symbols to EXPRESSIONS in fresh symbols, then to numbers == binding the composed values
+        fresh = sympy.symbols("u_1 u_2")
+        emap = {s: r.choice([2 * fresh[0], fresh[0] + fresh[1], sympy.I * fresh[1], fresh[0] / 2 - 1, fresh[1]]) for s in fs}
+        uvals = {fresh[0]: round(r.uniform(-2, 2), 3), fresh[1]: round(r.uniform(-2, 2), 3)}
+        via = c.bind(emap)
+        if set(via.free_symbols) - set(fresh):
+            return False, f"binding {emap} into {c} leaves {via.free_symbols}"
+        comp = {s: complex(sympy.N(e.subs(uvals))) for s, e in emap.items()}
+        if not np.allclose(ref_unitary(via.bind(uvals)), ref_unitary(c, subs=comp), atol=1e-8):
+            return False, f"binding {c} with expressions {emap} and then {uvals} differs from substituting the composed values"
     return True, "ok"
 
 
@@ -483,20 +659,39 @@ def check_C18(case):
     return True, "ok"
 
 
+def _sqrt_def():
+    import sympy
+    from orquestra.quantum.circuits import CustomGateDefinition
+    p = sympy.Symbol("gp")
+    return CustomGateDefinition("rc_sqrt", sympy.Matrix([[sympy.sqrt(1 - p), -sympy.sqrt(p)], [sympy.sqrt(p), sympy.sqrt(1 - p)]]), (p,))
+
+
 def check_C07(case):
-    """random base gate (built-in or custom, numeric) under a random chain of dagger / controlled modifiers of length <= 4 and, for small
-    gates, an integer power: qubit count, parameters and matrix follow the chain; replace_params commutes with the chain"""
+    """random base gate (built-in or custom; numeric, or symbolic and evaluated afterwards at real values of any sign and size) under a random
+    chain of dagger / controlled / integer-power modifiers of length <= 4 (powers may be stacked): qubit count, parameters and matrix follow the
+    chain; replace_params gives the same gate (structure, text, matrix) as modifying the re-parameterised base gate"""
+    import sympy
     r = rng("C07", case)
-    base = rand_gate(r, 2, wrappers=False)
+    symbolic = r.random() < 0.35
+    if symbolic and r.random() < 0.3:
+        base = _sqrt_def()(rand_param(r, True, force=True))
+    else:
+        base = rand_base_gate(r, 2, symbolic=symbolic, all_symbolic=symbolic)
+    vals = {s_: r.choice([0.37, -0.7, 1.5, 2.9, -4.2, 0.0, 1.0]) if r.random() < 0.7 else r.uniform(-6, 6) for s_ in sorted(base.free_symbols, key=str)}
+
+    def value(m):
+        return npmat(m.subs(vals)) if vals else npmat(m)
     g = base
-    M = npmat(base.matrix)
+    M = value(base.matrix)
     nq = base.num_qubits
     chain = []
     for _ in range(r.randint(1, 4)):
-        w = r.choice(["dagger", "controlled", "power"] if nq <= 2 and "power" not in chain else ["dagger", "controlled"])
+        opts = ["dagger", "controlled"] + (["power"] if nq <= 2 and not symbolic and sum(1 for w in chain if w[0] == "power") < 2 else [])
+        w = r.choice(opts)
         if w == "dagger":
             g = g.dagger
             M = M.conj().T
+            chain.append(("dagger",))
         elif w == "controlled":
             k = r.choice([1, 1, 2])
             if nq + k > 4:
@@ -504,41 +699,31 @@ def check_C07(case):
             g = g.controlled(k)
             M = ctrl(M, k)
             nq += k
+            chain.append(("controlled", k))
         else:
             e = r.choice([0, 1, 2, 3, -1, -2])
+            if e < 0 and abs(np.linalg.det(M)) < 1e-6:
+                continue
             g = g.power(e)
             M = np.linalg.matrix_power(M if e >= 0 else np.linalg.inv(M), abs(e))
-        chain.append(w)
+            chain.append(("power", e))
     if g.num_qubits != nq:
         return False, f"{g}: reports {g.num_qubits} qubits, the chain {chain} implies {nq}"
     if tuple(g.params) != tuple(base.params):
         return False, f"{g}: parameters {g.params} differ from the base gate's {base.params}"
-    if not np.allclose(npmat(g.matrix), M, atol=1e-8):
-        return False, f"{g}: matrix differs from the chain {chain} applied to the base matrix"
-    if base.params and "power" not in chain:
+    if not np.allclose(value(g.matrix), M, atol=1e-8):
+        return False, f"{g}" + (f" at {vals}" if vals else "") + f": matrix differs from the chain {chain} applied to the base matrix"
+    if base.params:
         newp = tuple(rand_param(r, False) for _ in base.params)
         a = g.replace_params(newp)
         b = base.replace_params(newp)
-        for w in _gate_chain(g):
-            b = b.dagger if w == "dagger" else b.controlled(w[1])
-        if a != b or not np.allclose(npmat(a.matrix), npmat(b.matrix), atol=1e-9):
+        for w in chain:
+            b = b.dagger if w[0] == "dagger" else b.controlled(w[1]) if w[0] == "controlled" else b.power(w[1])
+        if a != b or str(a) != str(b) or _gate_shape(a) != _gate_shape(b):
             return False, f"{g}.replace_params({newp}) = {a} differs from modifying the re-parameterised base gate = {b}"
+        if not any(w[0] == "power" for w in chain) and not np.allclose(npmat(a.matrix), npmat(b.matrix), atol=1e-9):
+            return False, f"{g}.replace_params({newp}): matrix differs from the modified re-parameterised base gate"
     return True, "ok"
-
-
-def _gate_chain(g):
-    """modifiers from the innermost outwards"""
-    from orquestra.quantum.circuits import ControlledGate, Dagger
-    out = []
-    while True:
-        if isinstance(g, ControlledGate):
-            out.append(("controlled", g.num_control_qubits))
-        elif isinstance(g, Dagger):
-            out.append("dagger")
-        else:
-            break
-        g = g.wrapped_gate
-    return out[::-1]
 
 
 # ----------------------------------------------------------------------------------------------------------------- operators
@@ -707,6 +892,28 @@ def check_C09(case):
     back = get_pauliop_from_matrix(A.tolist())
     if not np.allclose(op_dense(back, k), A, atol=1e-9):
         return False, f"a {2 ** k}x{2 ** k} matrix does not round-trip through the Pauli basis"
+    # matrices that have a symmetry ALMOST: real symmetric / Hermitian / diagonal up to entries 1e-6 .. 1e-5 of their size (given as floats, lists or complex)
+    scale = r.choice([1.0, 1.0, 1e3])
+    B = np.array([[r.gauss(0, 1) for _ in range(2 ** k)] for _ in range(2 ** k)]) * scale
+    kind = r.choice(["symmetric", "hermitian", "diagonal"])
+    if kind == "symmetric":
+        B = B + B.T
+    elif kind == "hermitian":
+        C_ = np.array([[r.gauss(0, 1) for _ in range(2 ** k)] for _ in range(2 ** k)]) * scale
+        B = (B + B.T) + 1j * (C_ - C_.T)
+    else:
+        B = np.diag(np.diag(B))
+    eps = r.choice([3e-6, 1e-6, 8e-6]) * scale
+    i, j = r.randrange(2 ** k), r.randrange(2 ** k)
+    if i == j:
+        j = (i + 1) % (2 ** k)
+    if i != j:
+        B[i, j] += eps
+    arg = B.tolist() if r.random() < 0.5 else B
+    back = get_pauliop_from_matrix(arg)
+    if not np.allclose(op_dense(back, k), B, atol=1e-7 * scale, rtol=0):
+        return False, (f"an almost {kind} {2 ** k}x{2 ** k} matrix (entry [{i}][{j}] off by {eps:g}) does not round-trip through the Pauli basis: "
+                       f"max deviation {np.abs(op_dense(back, k) - B).max():.3g}")
     return True, "ok"
 
 
@@ -775,8 +982,11 @@ def _eps(b, S):
 def rand_z_op(r, n, max_terms=6):
     from orquestra.quantum.operators import PauliSum, PauliTerm
     terms = []
+    tiny = r.random() < 0.2          # operators with several zero / negligible coefficients (terms that compare equal under a tolerance)
     for _ in range(r.randint(1, max_terms)):
         c = r.choice([1, -1, 2, 0.5, -0.25, 1.5, 3.0, -2.75]) if r.random() < 0.7 else round(r.uniform(-5, 5), 3)
+        if tiny and r.random() < 0.6:
+            c = r.choice([0.0, 0, 1e-9, -1e-9, 1e-12])
         if r.random() < 0.2:
             terms.append(PauliTerm("I0", c))
         else:
@@ -843,6 +1053,12 @@ def check_C10(case):
         even = sum(1 for s in shots if _eps(s, t.qubits) == 1)
         if list(par.values[i]) != [even, N - even]:
             return False, f"parity tallies of term {i} of {op} are {list(par.values[i])}, expected {[even, N - even]} on {want_counts}"
+    if par.correlations is not None:
+        for i, a in enumerate(terms):
+            for j, b in enumerate(terms):
+                same = sum(1 for s in shots if _eps(s, a.qubits) == _eps(s, b.qubits))
+                if list(par.correlations[0][i][j]) != [same, N - same]:
+                    return False, f"pair tallies [{i}][{j}] of {op} are {list(par.correlations[0][i][j])}, expected {[same, N - same]} on {want_counts}"
     if list(m.bitstrings) != list(shots) or dict(m.get_counts()) != want_counts:
         return False, "measurement set changed by the queries"
     return True, "ok"
@@ -976,6 +1192,66 @@ def check_C15(case):
         if o is None or len(o.values) != len(e) or not np.allclose(o.values, e, rtol=1e-12, atol=1e-12):
             return False, (f"kinds {''.join(kinds)}, shots {[t.number_of_shots for t in tasks]}: result {i} for {tasks[i].operator} is "
                            f"{None if o is None else list(o.values)}, expected {e}")
+    return _c15_exact_and_bind(r)
+
+
+def _c15_exact_and_bind(r):
+    """exact expectation values and per-task binding on task lists whose circuits (and symbol maps) are drawn from a small pool of OBJECTS, so that
+    neighbours share a circuit / a map object, with constant-operator and zero-shot tasks in between"""
+    import sympy
+    from orquestra.quantum.api.estimation import EstimationTask
+    from orquestra.quantum.circuits import RX, RY, Circuit, H, X
+    from orquestra.quantum.estimation import calculate_exact_expectation_values, evaluate_estimation_circuits
+    from orquestra.quantum.operators import PauliSum, PauliTerm
+    from orquestra.quantum.runners.symbolic_simulator import SymbolicSimulator
+    w = r.randint(1, 3)
+    pool = []
+    for _ in range(r.randint(1, 3)):
+        ops = [r.choice([X, H, RX(round(r.uniform(-3, 3), 2)), RY(round(r.uniform(-3, 3), 2))])(r.randrange(w)) for _ in range(r.randint(1, 4))]
+        pool.append(Circuit(ops, n_qubits=w))
+    if r.random() < 0.3:
+        pool.append(Circuit(list(pool[0].operations), n_qubits=w))          # equal to pool[0] but another object
+    tasks = []
+    for _ in range(r.randint(1, 7)):
+        if r.random() < 0.3:
+            op = PauliSum([PauliTerm("I0", r.choice([1.0, -2.0, 0.5])) for _ in range(r.randint(1, 2))])
+        else:
+            op = rand_sum(r, w, kinds=("int", "float", "neg"))
+            if not op.terms:
+                op = PauliSum([PauliTerm({0: "Z"}, 1.0)])
+        tasks.append(EstimationTask(op, r.choice(pool), r.choice([0, None, 1, 10])))
+    vals = calculate_exact_expectation_values(SymbolicSimulator(), tasks)
+    if len(vals) != len(tasks):
+        return False, f"{len(vals)} exact results for {len(tasks)} tasks"
+    for i, (t, v) in enumerate(zip(tasks, vals)):
+        psi = ref_unitary(t.circuit)[:, 0]
+        e = complex(np.vdot(psi, op_dense(t.operator, w) @ psi)).real
+        if len(v.values) != 1 or abs(v.values[0] - e) > 1e-9:
+            which = [pool.index(x.circuit) for x in tasks]
+            return False, f"exact value of task {i} ({t.operator} on circuit object #{which[i]} of {which}) is {list(v.values)}, the quadratic form is {e}"
+    syms = sympy.symbols("al be ga")
+    cpool = []
+    for _ in range(r.randint(1, 3)):
+        used = r.sample(syms, r.randint(1, 3))
+        cpool.append(Circuit([r.choice([RX, RY])(s_ if r.random() < 0.7 else 2 * s_)(r.randrange(w)) for s_ in used] + ([X(0)] if r.random() < 0.5 else []), n_qubits=w))
+    btasks = [EstimationTask(PauliSum([PauliTerm({0: "Z"}, 1.0)]), r.choice(cpool), r.choice([0, 5, None])) for _ in range(r.randint(1, 6))]
+    full = {s_: round(r.uniform(-2, 2), 2) for s_ in syms}
+    mode = r.choice(["one object", "separate equal", "separate different", "partial"])
+    if mode == "one object":
+        maps = [full] * len(btasks)
+    elif mode == "separate equal":
+        maps = [dict(full) for _ in btasks]
+    elif mode == "separate different":
+        maps = [{s_: round(r.uniform(-2, 2), 2) for s_ in syms} for _ in btasks]
+    else:
+        maps = [{s_: full[s_] for s_ in r.sample(syms, r.randint(0, 3))} for _ in btasks]
+    before = [dict(m) for m in maps]
+    out = evaluate_estimation_circuits(btasks, maps)
+    if len(out) != len(btasks) or [dict(m) for m in maps] != before:
+        return False, f"evaluate_estimation_circuits: {len(out)} tasks for {len(btasks)} / maps modified"
+    for i, (t, b, m) in enumerate(zip(btasks, out, maps)):
+        if b.circuit != t.circuit.bind(m) or set(b.circuit.free_symbols) != set(t.circuit.free_symbols) - set(m) or b.operator is not t.operator or b.number_of_shots != t.number_of_shots:
+            return False, f"maps given as {mode}: task {i} with circuit {t.circuit} and map {m} came back with circuit {b.circuit} (free symbols {b.circuit.free_symbols})"
     return True, "ok"
 
 
@@ -997,7 +1273,13 @@ def check_C16(case):
             terms.append(({q: r.choice("XYZ") for q in qs}, c))
     if r.random() < 0.3:
         terms.insert(r.randrange(len(terms) + 1), r.choice(terms))
-    H = PauliSum([PauliTerm(dict(o) if o else "I0", c) for o, c in terms])
+    objs = [PauliTerm(dict(o) if o else "I0", c) for o, c in terms]
+    if r.random() < 0.35:              # one and the same term OBJECT listed at two positions (a symmetric splitting)
+        j = r.randrange(len(objs))
+        k = r.randrange(len(objs) + 1)
+        objs.insert(k, objs[j])
+        terms.insert(k, terms[j if j < k else j])
+    H = PauliSum(objs)
     steps = r.randint(1, 3)
     t = r.choice([0.37, -1.3, 2.2, 0.05])
 
@@ -1017,6 +1299,12 @@ def check_C16(case):
     U = mat(circ)
     if not same_up_to_phase(U, product(t)) or (all(o for o, _ in terms) and not np.allclose(U, product(t), atol=1e-9)):
         return False, f"time_evolution({H}, {t}, n_steps={steps}): circuit matrix differs from the ordered Trotter product"
+    # exp(-i t H) depends on t x H only: a tiny (huge) Hamiltonian evolved for a long (short) time is the same evolution
+    sc = r.choice([1e-9, 1e-5, 1e6])
+    Hs = PauliSum([PauliTerm(dict(o) if o else "I0", c * sc) for o, c in terms])
+    Us = mat(time_evolution(Hs, t / sc, n_steps=steps))
+    if Us is None or not same_up_to_phase(Us, product(t), tol=1e-6):
+        return False, f"time_evolution({sc} x ({H}), {t} / {sc}, n_steps={steps}) differs from the evolution under {H} for time {t}"
     A = np.array([[complex(r.gauss(0, 1), r.gauss(0, 1)) for _ in range(2 ** n)] for _ in range(2 ** n)])
     O = A + A.conj().T
     psi = rand_state(r, n)
@@ -1048,6 +1336,8 @@ def check_C17(case):
         ws = [r.choice([1, 2, 3, 0.5, 0.25, 1e-3, 10]) if r.random() < 0.7 else r.uniform(0.01, 5) for _ in keys]
         if len(keys) > 1 and r.random() < 0.2:
             ws[r.randrange(len(ws))] = 0.0
+        if len(keys) > 1 and r.random() < 0.25:          # an extreme dynamic range inside one distribution (proportions are relative statements)
+            ws[r.choice([0, -1, r.randrange(len(ws))])] = r.choice([1e-20, 1e-12, 3e-17, 1e12])
         return keys, ws
     keys, ws = rand_dist()
     as_str = r.random() < 0.4
@@ -1055,7 +1345,7 @@ def check_C17(case):
     D = MOD(dict(raw), normalize=True)
     tot = sum(ws)
     got = {tuple(int(c) for c in k) if isinstance(k, str) else tuple(k): v for k, v in D.distribution_dict.items()}
-    if abs(sum(got.values()) - 1) > 1e-9 or any(v < 0 for v in got.values()) or any(abs(got.get(k, 0) - w / tot) > 1e-12 for k, w in zip(keys, ws)):
+    if abs(sum(got.values()) - 1) > 1e-9 or any(v < 0 for v in got.values()) or any(abs(got.get(k, 0) - w / tot) > 1e-9 * (w / tot) + 1e-300 for k, w in zip(keys, ws)):
         return False, f"MOD({raw}) holds {D.distribution_dict}: not the input proportions normalised to 1"
     qs = r.sample(range(n), r.randint(1, n))
     before = dict(D.distribution_dict)
@@ -1168,12 +1458,28 @@ def check_C12(case):
     if r.random() < 0.3:
         v = np.zeros(2 ** n, dtype=complex)
         v[r.randrange(2 ** n)] = r.choice([1, -1, 1j])
-    w = Wavefunction(v.copy())
+    if r.random() < 0.4:
+        return _c12_symbolic(r, n)
+    storage = r.choice(["flat", "flat", "column", "bound"])
+    if storage == "column":
+        w = Wavefunction(v.copy().reshape(-1, 1))
+    elif storage == "bound":           # a symbolic state with every symbol bound: numeric again, but stored as the substituted matrix was
+        import sympy
+        sy = sympy.symbols("w_a w_b")
+        j0, j1 = r.sample(range(2 ** n), 2) if n > 0 and 2 ** n >= 2 else (0, 0)
+        ent = [complex(x) for x in v]
+        sym_ent = list(ent)
+        sym_ent[j0], sym_ent[j1] = sy[0], sy[1]
+        w = Wavefunction(sym_ent).bind({sy[0]: ent[j0], sy[1]: ent[j1]})
+        v = np.array(w.amplitudes, dtype=complex).reshape(-1)
+    else:
+        w = Wavefunction(v.copy())
     cur = v.copy()
+    flat = lambda x: np.array(x, dtype=complex).reshape(-1)
     for step in range(r.randint(1, 10)):
-        i = r.randrange(2 ** n)
+        i = r.randrange(2 ** n) if r.random() < 0.7 else -r.randint(1, 2 ** n)
         kind = r.choice(["phase", "same", "scale", "zero", "slice_swap", "slice_bad", "big"])
-        before = np.array(w.amplitudes, dtype=complex).copy()
+        before = flat(w.amplitudes).copy()
         try:
             if kind == "phase":
                 val = cur[i] * np.exp(1j * r.uniform(0, 6))
@@ -1205,7 +1511,7 @@ def check_C12(case):
             accepted = True
         except ValueError:
             accepted = False
-        now = np.array(w.amplitudes, dtype=complex)
+        now = flat(w.amplitudes)
         if accepted:
             if abs(np.sum(np.abs(new) ** 2) - 1) > 1e-6:
                 return False, f"step {step} ({kind}) accepted although the squared magnitudes then sum to {np.sum(np.abs(new) ** 2)}"
@@ -1219,9 +1525,11 @@ def check_C12(case):
                 return False, f"step {step} ({kind}) was rejected but changed the vector from {before} to {now}"
         if abs(np.sum(np.abs(now) ** 2) - 1) > 1e-6:
             return False, f"after step {step} ({kind}) the squared magnitudes sum to {np.sum(np.abs(now) ** 2)}"
-    p = w.get_probabilities()
+    p = flat(w.get_probabilities()).real
     if not np.allclose(p, np.abs(cur) ** 2, atol=1e-12) or abs(sum(p) - 1) > 1e-6:
         return False, "probabilities are not the squared magnitudes"
+    if storage != "flat":
+        return True, "ok"
     f = flip_wavefunction(w)
     rev = lambda i: int(format(i, f"0{n}b")[::-1], 2)
     if any(f.amplitudes[i] != cur[rev(i)] for i in range(2 ** n)) or not np.array_equal(np.array(flip_wavefunction(f).amplitudes), cur):
@@ -1231,6 +1539,118 @@ def check_C12(case):
         save_wavefunction(w, pth)
         if not np.array_equal(np.array(load_wavefunction(pth).amplitudes, dtype=complex), cur):
             return False, "save/load changed the amplitudes after the history"
+    return True, "ok"
+
+
+def _c12_symbolic(r, n):
+    """symbolic states: entries are symbols, expressions, Python numbers and sympy constants of every kind (I, pi/4, E/3, sqrt(3)/2, rationals, floats);
+    construction, element assignment and binding (to numbers, to expressions in the same or other symbols) are accepted only if the numeric entries
+    do not already exceed norm 1; a rejected step leaves the object as it was"""
+    import sympy
+    from orquestra.quantum.wavefunction import Wavefunction
+    n = max(n, 1)
+    N = 2 ** n
+    sy = list(sympy.symbols("w_a w_b w_c"))
+    consts = [sympy.I, -sympy.I, sympy.pi / 4, sympy.E / 3, sympy.sqrt(3) / 2, sympy.Rational(9, 10), sympy.Rational(1, 2), 0.9 * sympy.I, sympy.Float(0.9), sympy.GoldenRatio / 2,
+              sympy.sqrt(2) / 2, sympy.I / 2, 1, 0.5, 0.5j, 0, 0.1, sympy.Integer(1), sympy.pi / 3, sympy.exp(sympy.I * sympy.pi / 3) / 2]
+
+    def numeric_total(vec):
+        t = 0.0
+        for e in vec:
+            e = sympy.sympify(e)
+            if not e.free_symbols:
+                t += abs(complex(sympy.N(e))) ** 2
+        return t
+
+    def entries(w):
+        a = w.amplitudes
+        if not isinstance(a, np.ndarray):
+            return [a[i] for i in range(N)]
+        return [complex(x) if isinstance(x, (np.generic, int, float, complex)) else x for x in np.array(a).reshape(-1)]
+
+    def rand_entry():
+        u = r.random()
+        if u < 0.35:
+            return r.choice(sy)
+        if u < 0.45:
+            s1 = r.choice(sy)
+            return r.choice([s1 / 2, s1 + r.choice(sy), 2 * s1, -s1])
+        return r.choice(consts)
+    vec = [rand_entry() for _ in range(N)]
+    if r.random() < 0.4:            # nearly saturated: the numeric entries already carry 0.5 .. 0.8, the rest are bare symbols / sums of symbols
+        fill = r.choice([[0.5, 0.5], [sympy.sqrt(2) / 2], [0.5, sympy.I / 2], [sympy.sqrt(3) / 2], [0.5, 0.5, 0.5], [0.8], [sympy.Rational(1, 2), 0.5j, 0.5]])
+        fill = fill[:max(1, N - 1)]
+        vec = list(fill) + [r.choice(sy) if r.random() < 0.8 else r.choice(sy) + r.choice(sy) for _ in range(N - len(fill))]
+        r.shuffle(vec)
+    if all(not sympy.sympify(e).free_symbols for e in vec):
+        vec[r.randrange(N)] = sy[0]
+    tot = numeric_total(vec)
+    if abs(tot - 1) < 1e-6:
+        return None, "boundary"
+    try:
+        w = Wavefunction(list(vec))
+        ok = True
+    except ValueError:
+        ok = False
+    if ok != (tot < 1):
+        return False, f"Wavefunction({vec}) was {'accepted' if ok else 'rejected'}: its numeric entries have total probability {tot:.6f}"
+    if not ok:
+        return True, "ok"
+    for step in range(r.randint(1, 6)):
+        before = entries(w)
+        if not any(sympy.sympify(e).free_symbols for e in before):
+            break
+        if r.random() < 0.5:
+            i = r.randrange(N) if r.random() < 0.7 else -r.randint(1, N)
+            val = rand_entry()
+            new = list(before)
+            new[i] = val
+            t2 = numeric_total(new)
+            if abs(t2 - 1) < 1e-6:
+                continue
+            try:
+                w[i] = val
+                acc = True
+            except ValueError:
+                acc = False
+            now = entries(w)
+            if not any(sympy.sympify(e).free_symbols for e in new):
+                continue            # the vector would become fully numeric: the numeric histories cover that
+            if acc != (t2 < 1):
+                return False, f"assigning {val} at {i} of {before} was {'accepted' if acc else 'rejected'}: the numeric entries then total {t2:.6f}"
+            if not acc and any(sympy.sympify(x) != sympy.sympify(y) for x, y in zip(now, before)):
+                return False, f"the rejected assignment of {val} at {i} changed {before} into {now}"
+            if acc and sympy.sympify(now[i]) != sympy.sympify(val):
+                return False, f"the accepted assignment of {val} at {i} left {now[i]} there"
+        else:
+            free = sorted({x for e in before for x in sympy.sympify(e).free_symbols}, key=str)
+            mp = {}
+            for s_ in free:
+                u = r.random()
+                if u < 0.45:
+                    mp[s_] = r.choice([0.1, 0.3, 0.5, 0.9, 1.2, 0.5j, -0.7, 0.95, 0.8])
+                elif u < 0.9:
+                    o = r.choice(free) if r.random() < 0.7 else r.choice(sy)
+                    mp[s_] = r.choice([o, o + s_, o / 2, 2 * o, o + r.choice(free)])
+            try:
+                nw = w.bind(dict(mp))
+                acc = True
+            except ValueError:
+                acc = False
+            now = entries(w)
+            if any(sympy.sympify(x) != sympy.sympify(y) for x, y in zip(now, before)):
+                return False, f"bind({mp}) changed the receiver {before} into {now}"
+            if acc:
+                res = entries(nw)
+                t2 = numeric_total(res)
+                full = not any(sympy.sympify(e).free_symbols for e in res)
+                if t2 > 1 + 1e-6 or (full and abs(t2 - 1) > 1e-6):
+                    return False, f"bind({mp}) on {before} returned {res}, whose numeric entries total {t2:.6f}"
+                w = nw
+            else:
+                seq = [sympy.sympify(e).subs(mp) for e in before]
+                if any(e.free_symbols for e in seq) and numeric_total(seq) < 1 - 1e-6:
+                    return False, f"bind({mp}) on {before} was rejected although the numeric entries of {seq} total {numeric_total(seq):.6f}"
     return True, "ok"
 
 
@@ -1318,37 +1738,56 @@ def check_C14(case):
 
 
 def check_C19(case):
-    """random sympy expression trees (depth <= 4) over symbols with numbered names, integers, floats, rationals, I, + - * / **, sqrt and the
-    supported functions: translating to the neutral tree and back evaluates to the same number at two random points"""
+    """random sympy expression trees (depth <= 4) over symbols with numbered names, integers, floats, rationals, I, + - * / **, numeric
+    coefficients times powers, exponents that are themselves small expressions (1/y, -y, y+1), sqrt and the supported functions, flat
+    UNEVALUATED sums / products with several numeric literals (also imaginary ones): translating to the neutral tree and back evaluates
+    to the same number at real points beyond +-pi and at complex points"""
     import sympy
-    from orquestra.quantum.circuits.symbolic.sympy_expressions import expression_from_sympy
+    from orquestra.quantum.circuits.symbolic.sympy_expressions import SYMPY_DIALECT, expression_from_sympy
     from orquestra.quantum.circuits.symbolic.translations import translate_expression
-    from orquestra.quantum.circuits.symbolic.sympy_expressions import SYMPY_DIALECT
     r = rng("C19", case)
     syms = sympy.symbols("x y theta_1 theta_10 beta_2 lambda_3")
-    funcs = [sympy.sin, sympy.cos, sympy.exp, sympy.tan, sympy.sqrt] + ([sympy.log] if False else [])
+    funcs = [sympy.sin, sympy.cos, sympy.exp, sympy.tan, sympy.sqrt]
+
+    def num():
+        k = r.randrange(4)
+        if k == 0:
+            return sympy.Integer(r.choice([0, 1, 2, -1, -3, 7, 10, 12]))
+        if k == 1:
+            return sympy.Float(r.choice([0.5, -1.25, 3.141592653589793, 1e-3, 2.5, 0.1, 1.5, 2.0]))
+        if k == 2:
+            return r.choice([sympy.Rational(1, 3), sympy.Rational(-7, 2), sympy.Rational(22, 7), sympy.Rational(1, 2)])
+        return r.choice([sympy.I, 2.0 * sympy.I, -0.5 * sympy.I, 3 * sympy.I])
 
     def leaf():
-        k = r.randrange(6)
-        if k <= 2:
-            return r.choice(syms)
-        if k == 3:
-            return sympy.Integer(r.choice([0, 1, 2, -1, -3, 7, 10, 12]))
-        if k == 4:
-            return sympy.Float(r.choice([0.5, -1.25, 3.141592653589793, 1e-3, 2.5, 0.1]))
-        return r.choice([sympy.Rational(1, 3), sympy.Rational(-7, 2), sympy.I, sympy.pi if False else sympy.Rational(22, 7)])
+        u = r.random()
+        if u < 0.1:
+            return sympy.I * r.choice(syms)
+        return r.choice(syms) if u < 0.6 else num()
+
+    def exponent():
+        s = r.choice(syms)
+        return r.choice([2, 3, -1, -2, sympy.Rational(1, 2), 0.5, 1.5, s, 1 / s, -s, s + 1, sympy.Rational(1, 3), 2 * s])
 
     def tree(d):
         if d == 0 or r.random() < 0.2:
             return leaf()
-        k = r.choice(["+", "-", "*", "/", "**", "f", "neg", "+", "*"])
+        k = r.choice(["+", "-", "*", "/", "**", "f", "neg", "+", "*", "coef", "flat+", "flat*"])
         if k == "f":
             return r.choice(funcs)(tree(d - 1))
         if k == "neg":
             return -tree(d - 1)
+        if k == "coef":
+            return r.choice([2, -1, sympy.Rational(1, 2), 2.5, -3]) * tree(d - 1)
+        if k in ("flat+", "flat*"):
+            args = [num() if r.random() < 0.6 else tree(d - 1) for _ in range(r.randint(2, 4))]
+            r.shuffle(args)
+            return (sympy.Add if k == "flat+" else sympy.Mul)(*args, evaluate=False)
         a = tree(d - 1)
         if k == "**":
-            return a ** r.choice([2, 3, -1, -2, sympy.Rational(1, 2), 0.5, 1.5, r.choice(syms)])
+            if r.random() < 0.3:        # a function value as the base: (exp(a))**b is not exp(a*b) off the principal strip
+                a = r.choice(funcs)(a)
+            return a ** exponent()
         b = tree(d - 1)
         if k == "+":
             return a + b
@@ -1358,26 +1797,32 @@ def check_C19(case):
             return a * b
         return a / (b if b != 0 else 1)
     e = tree(4)
-    if e in (sympy.zoo, sympy.nan, sympy.oo, -sympy.oo) or e.has(sympy.zoo, sympy.nan, sympy.oo):
+    if not isinstance(e, sympy.Expr) or e.has(sympy.zoo, sympy.nan, sympy.oo):
         return None, "degenerate"
     try:
         back = translate_expression(expression_from_sympy(e), SYMPY_DIALECT)
     except (ValueError, NotImplementedError):
         return None, "a construct outside the supported set was refused"
+    back = sympy.sympify(back)
     fs = sorted(e.free_symbols, key=str)
-    if set(sympy.sympify(back).free_symbols) - set(fs):
+    if set(back.free_symbols) - set(fs):
         return False, f"{e} translated back as {back}: new symbols appear"
-    for _ in range(2):
-        pt = {s: r.uniform(0.3, 1.7) for s in fs}
+    for trial in range(3):
+        if trial == 0:
+            pt = {s: r.uniform(0.3, 1.7) for s in fs}
+        elif trial == 1:
+            pt = {s: r.choice([-1, 1]) * r.uniform(0.4, 5.5) for s in fs}
+        else:
+            pt = {s: complex(r.uniform(-3, 3), r.uniform(-4.5, 4.5)) for s in fs}
         try:
             a = complex(sympy.N(e.subs(pt), 30))
-            b = complex(sympy.N(sympy.sympify(back).subs(pt), 30))
+            b = complex(sympy.N(back.subs(pt), 30))
         except Exception:
-            return None, "not evaluable"
-        if not (math.isfinite(a.real) and math.isfinite(a.imag)) or abs(a) > 1e100:
-            return None, "not finite"
+            continue
+        if not (math.isfinite(a.real) and math.isfinite(a.imag) and math.isfinite(b.real) and math.isfinite(b.imag)) or abs(a) > 1e60:
+            continue
         if abs(a - b) > 1e-9 * max(1.0, abs(a)):
-            return False, f"{e} -> neutral tree -> {back}: values {a} and {b} at {pt}"
+            return False, f"{sympy.srepr(e) if len(str(e)) < 80 else e} = {e} -> neutral tree -> {back}: values {a} and {b} at {pt}"
     return True, "ok"
 
 
@@ -1387,6 +1832,7 @@ _Q = "orquestra.quantum."
 PLAN = {
     "C01": (60, 600, [_Q + "circuits._circuit:Circuit.to_unitary", _Q + "circuits._circuit:Circuit.__add__", _Q + "circuits._gates:GateOperation.lifted_matrix", _Q + "circuits._gates:GateOperation.apply",
                       _Q + "api.wavefunction_simulator:BaseWavefunctionSimulator.get_wavefunction"]),
+    "C02": (300, 3000, [_Q + "circuits._builtin_gates:make_parametric_gate_prototype", _Q + "circuits._gates:MatrixFactoryGate.matrix", _Q + "circuits._matrices:*"]),
     "C03": (1500, 20000, [_Q + "operators._pauli_operators:PauliTerm.__mul__", _Q + "operators._pauli_operators:PauliSum.__mul__", _Q + "operators._pauli_operators:PauliSum.__add__",
                           _Q + "operators._pauli_operators:PauliSum.__pow__", _Q + "operators._pauli_operators:PauliSum.simplify", _Q + "operators._pauli_operators:PauliSum.__eq__"]),
     "C04": (80, 800, [_Q + "api.wavefunction_simulator:BaseWavefunctionSimulator.get_measurement_outcome_distribution", _Q + "api.wavefunction_simulator:BaseWavefunctionSimulator.get_exact_expectation_values",
